@@ -6,10 +6,13 @@ is a column C01's store model can hold (`ColOK`); hence `NxBackend.write`'s in-m
 namespace Geff.Link
 open Geff.Np Geff.Dicts
 
-/-- a Python attribute value whose array form is an array: as many leaves as the shape says -/
+/-- a Python attribute value whose array form is an array: as many leaves as the shape says; Python `None`
+is not a value the store link covers (its handling by `dict_props_to_arr` — repair C03-06 — is C03's own
+subject; a `None` becomes a missing element, so what is read back is not what was handed in) -/
 def PyWF : PyVal → Prop
   | .sc _ => True
   | .arr sh fl => fl.length = prod sh
+  | .none => False
 
 /-- the dtypes numpy's inference on Python scalars ends in (when the conversion succeeds) -/
 def five : List Dtype := [.bool, .i64, .u64, .f64, .str]
@@ -86,10 +89,10 @@ theorem pyRow_wf (y : PyVal) (h : PyWF y) : (pyRow y).2.length = prod (pyRow y).
   cases y with
   | sc v => simp [pyRow, prod]
   | arr sh fl => exact h
+  | none => exact h.elim
 
 theorem pyRow_shape_of_pyShape (x y : PyVal) (h : pyShape y = pyShape x) : (pyRow y).1 = (pyRow x).1 := by
-  cases x <;> cases y <;> simp [pyShape, pyRow] at h ⊢
-  exact h
+  cases x <;> cases y <;> simp [pyShape, pyRow] at h ⊢ <;> first | exact h | exact h.symm
 
 /-- the regular branch of `valuesToArr` produces a storable column -/
 theorem regularArr_colOK (x : PyVal) (vals : List PyVal) (hx : vals.head? = some x)
@@ -287,6 +290,7 @@ theorem defaultFor_wf (v : PyVal) (h : PyWF v) : PyWF (defaultFor v) := by
   cases v with
   | sc x => cases x <;> trivial
   | arr sh fl => exact h
+  | none => exact h.elim
 
 theorem filledValues_wf {ι : Type} (data : List (ι × Attrs)) (name : String)
     (h : ∀ d ∈ data, ∀ kv ∈ d.2, PyWF kv.2) : ∀ y ∈ filledValues data name, PyWF y := by
@@ -307,7 +311,17 @@ theorem filledValues_wf {ι : Type} (data : List (ι × Attrs)) (name : String)
 attribute dicts whose array values are arrays -/
 theorem dictPropToArr_colOK {ι : Type} (data : List (ι × Attrs)) (name : String)
     (h : ∀ d ∈ data, ∀ kv ∈ d.2, PyWF kv.2) (c : Col) (hc : dictPropToArr data name = .ok c) : ColOK c := by
+  have hnone : (filledValues data name).any PyVal.isNone = false := by
+    rw [List.any_eq_false]
+    intro y hy
+    have := filledValues_wf data name h y hy
+    cases y with
+    | none => exact this.elim
+    | sc v => simp [PyVal.isNone]
+    | arr sh fl => simp [PyVal.isNone]
   unfold dictPropToArr at hc
+  rw [hnone] at hc
+  simp only [Bool.false_eq_true, if_false] at hc
   cases hv : valuesToArr (filledValues data name) with
   | error e => simp [hv] at hc
   | ok dvr =>
@@ -331,7 +345,8 @@ theorem dictPropsToArr_colOK {ι : Type} (data : List (ι × Attrs)) (names : Li
     exact ⟨hn, dictPropToArr_colOK data n h c hc⟩
 
 /-- what the link asks of a networkx attribute graph beyond C03's `NxDomain`: every attribute name is a
-name zarr accepts as one path segment, and every array-valued attribute is an array (`PyWF`) -/
+name zarr accepts as one path segment, and every attribute value is a scalar or an array with
+`prod shape` leaves — in particular not Python `None` (`PyWF`) -/
 structure NxStorable (G : Geff.Backends.NxGraph) : Prop where
   node : ∀ d ∈ G.nodes, ∀ kv ∈ d.2, Geff.WR.validName kv.1 = true ∧ PyWF kv.2
   edge : ∀ d ∈ G.edges, ∀ kv ∈ d.2, Geff.WR.validName kv.1 = true ∧ PyWF kv.2
